@@ -35,4 +35,6 @@ def with_state_lint(prop, run):
             shared.no_identity_on_values(check, rels)
             shared.no_store_unless_present(check, rels)
             shared.residue_identity(check, rels)
+            shared.no_param_inplace_update(check, rels)
+            shared.local_memo_tables(check, rels)
     return wrapped
